@@ -6,6 +6,7 @@
 mod child;
 mod engine;
 mod envprobe;
+mod fsalpha;
 mod fsapply;
 mod fsdrive;
 mod fsgen;
